@@ -254,6 +254,12 @@ def mon_locking(pid, run):
                 v = V.get(a)
                 if v is None or v["status"] not in ("pending", "active") or v["power"] != p or p <= 0:
                     hits.append((i, "ranking entry (%d,%s) does not match an eligible validator with that positive power: %s" % (p, a, v and (v["status"], v["power"]))))
+            ranked = {a for (_, a) in d["_rank"]}
+            for a, v in V.items():
+                # "no eligible non-member with more power than a member": an eligible validator (active or pending with
+                # positive power) that the ranking does not list can never be compared with the members
+                if v["status"] in ("pending", "active") and v["power"] > 0 and a not in ranked:
+                    hits.append((i, "eligible validator %s (%s, power %d) is missing from the power ranking" % (a, v["status"], v["power"])))
         if pid == "C14":
             ranked = {a for (_, a) in d["_rank"]}
             for a, v in V.items():
